@@ -256,8 +256,8 @@ WsProxiedIffConfigured(cfg, rq) ==
 
 \* the answer reads hosts and routes only ("independent of what else is configured")
 IndependentOfRest(cfg, rq) ==
-  \A d \in 0..3, c \in BOOLEAN, l \in Levels :
-     CodeAnswer([cfg EXCEPT !.dws = d, !.cache = c, !.level = l], rq) = CodeAnswer(cfg, rq)
+  \A d \in 0..3 : CodeAnswer([cfg EXCEPT !.dws = d, !.cache = ~cfg.cache, !.level = IF d = 0 THEN "error" ELSE "debug",
+                                         !.threads = d + 1, !.timeout = d], rq) = CodeAnswer(cfg, rq)
 
 (***************************************************************************)
 (* Part 3: logging.                                                        *)
@@ -317,8 +317,8 @@ NoSilentDrop == \A l \in Levels, ev \in Events :
 \* the severity tag of a monitor line is the lowest level that subscribes to its event
 SeverityIsFirstLevel == \A ev \in MaskDebug : \A l \in Levels : (ev \in LogMask(l)) <=> (Rank[l] >= Rank[SevOf(ev)])
 \* whatever is emitted, a higher level prints a superset of the lines
-LinesMonotone(ems) == \A a, b \in Levels : Rank[a] <= Rank[b] =>
-                         \A k \in 1..Len(ems) : Printed(a, ems[k]) => Printed(b, ems[k])
+LinesMonotone(ems) == \A pr \in {<<"error", "warn">>, <<"warn", "info">>, <<"info", "debug">>} :
+                         \A k \in 1..Len(ems) : Printed(pr[1], ems[k]) => Printed(pr[2], ems[k])
 
 (***************************************************************************)
 (* Part 4: one connection, sessions.                                       *)
@@ -411,6 +411,18 @@ CountLines(level, ems) ==
   LET P == { k \in 1..Len(ems) : Printed(level, ems[k]) }
       cats == { LineOf(ems[k]) : k \in P }
   IN { [sev |-> c.sev, what |-> c.what, n |-> Cardinality({ k \in P : LineOf(ems[k]) = c })] : c \in cats }
+
+\* the two sinks: the same lines on the console (if `console`) and in the log file (if `file`), nothing otherwise
+SinkLines(cfg, sink, ems) == IF (sink = "console" /\ cfg.console) \/ (sink = "file" /\ cfg.file) THEN CountLines(cfg.level, ems) ELSE {}
+\* comparison of observed line counts with the expected ones.  ThreadPoolOverload also fires whenever the machine is slow
+\* (a task waited > 100 ms for a worker): at least the expected number where the level prints it, none where it does not
+SeqToSet(s) == { s[i] : i \in 1..Len(s) }
+NOf(S, what) == IF \E x \in S : x.what = what THEN (CHOOSE x \in S : x.what = what).n ELSE 0
+LinesAgree(cfg, enabled, obs, exp) ==
+  LET o == { x \in obs : x.what # "ThreadPoolOverload" }   e == { x \in exp : x.what # "ThreadPoolOverload" }
+  IN /\ o = e
+     /\ IF enabled /\ Printed(cfg.level, M("ThreadPoolOverload", "")) THEN NOf(obs, "ThreadPoolOverload") >= NOf(exp, "ThreadPoolOverload")
+        ELSE NOf(obs, "ThreadPoolOverload") = 0
 
 \* a cache hit returns what the same (host, path) would be served without the cache (C16's coherence, seen from here)
 CacheCoherent(cfg, conns) ==
